@@ -28,7 +28,7 @@ const prop = "C03"
 
 func TestMain(m *testing.M) {
 	vkit.Rec(prop).SetLevel("exploration",
-		"(1) for sampled honest requests that WOULD write (authorize of an unknown node; fetch with an outstanding activation token; wrapped registration) every single-bit flip and every truncation of bundle and signature, swapped/foreign signatures and random multi-byte mutations: must be rejected with no Store/Remove reaching storage; (2) hand-built correctly signed bundles whose validity window edges are placed at drawn distances (3 s..10 d, either side) from now under drawn skews (0..days, asymmetric), through both AuthorizeNode and FetchNodeCredentials: accepted iff notBefore+nbSkew <= now <= notAfter+naSkew; missing fields / unsupported key types rejected; (3) requests created by the node: lifetime exactly the documented one, starting now. Non-trivial = mutation of a request whose original is accepted and writes, or a window edge within one skew of its boundary; distinct = (entry point, mutation position) / (edge placements, skews).")
+		"(1) for sampled honest requests that WOULD write (authorize of an unknown node; fetch with an outstanding activation token; wrapped registration) every single-bit flip and every truncation of bundle and signature, swapped/foreign signatures and random multi-byte mutations: must be rejected with no Store/Remove reaching storage; (2) hand-built correctly signed bundles whose validity window edges are placed at drawn distances (3 s..10 d, either side) from now under drawn skews (0..days, asymmetric, one time in four each of the narrowing sign), through both AuthorizeNode and FetchNodeCredentials: accepted iff notBefore+nbSkew <= now <= notAfter+naSkew; missing fields / unsupported key types rejected; (3) requests created by the node: lifetime exactly the documented one, starting now. Non-trivial = mutation of a request whose original is accepted and writes, or a window edge within one skew of its boundary; distinct = (entry point, mutation position) / (edge placements, skews).")
 	vkit.Rec(prop).Assume("window edges are kept >= 3 s away from now; equality with now is not decided")
 	vkit.Main(m)
 }
@@ -318,6 +318,15 @@ func TestProp_Window(t *testing.T) {
 			w = wReg
 		}
 		nbSkew, naSkew := -genSkew(t, "nbskew"), genSkew(t, "naskew")
+		// a skew of the NARROWING sign is a configuration too (a positive not-before skew,
+		// a negative not-after skew): the window then ends inside the bundle's own one, and
+		// a request between the two edges must still be refused
+		if rapid.IntRange(0, 3).Draw(t, "nbSkewNarrowing") == 0 {
+			nbSkew = -nbSkew
+		}
+		if rapid.IntRange(0, 3).Draw(t, "naSkewNarrowing") == 0 {
+			naSkew = -naSkew
+		}
 		a, b := genEdge(t, "nbedge"), genEdge(t, "naedge")
 		// bias towards "other edge comfortably fine" so that each edge decides alone
 		if rapid.IntRange(0, 2).Draw(t, "isolate") == 0 {
